@@ -72,6 +72,10 @@ theorem stepInstr_preserves (P : Ctx → Prop) (H : OpsPreserve P) (s : St) (i :
       split <;> rename_i heq <;> rw [heq] at this <;> first | exact this | trivial
     · trivial
   · split
+    · have := H.attrSet s.ctx (ps.getD 0 0) 0 (i16 (i32 (‹Int› + curAttr s.ctx (ps.getD 0 0)))) h
+      split <;> rename_i heq <;> rw [heq] at this <;> first | exact this | trivial
+    · trivial
+  · split
     · have := H.attrSet s.ctx (ps.getD 0 0) ((if ps.getD 0 0 = 2 then s.ctx.map - 1 else 0 : Int) % 256).toNat (i16 (i32 (‹Int› + (if ps.getD 0 0 = 2 then s.ctx.map - 1 else 0)))) h
       split <;> rename_i heq <;> rw [heq] at this <;> first | exact this | trivial
     · trivial
